@@ -35,7 +35,7 @@
    state reached so far (status Aborted).  A theorem for all fuel therefore
    also speaks about every prefix of an execution (an exception raised at
    any point).  *)
-From Coq Require Import List String Bool Arith.
+From Coq Require Import List String Bool Arith NArith.
 Import ListNotations.
 Open Scope string_scope.
 
@@ -365,11 +365,15 @@ Definition st0 (fn : func) : state :=
 
 (* pseudo-random decisions from a seed *)
 Definition lcg_bit (seed c : nat) : bool :=
-  Nat.odd (((seed * 7919 + c * 104729 + seed * c * 31 + c * c * 17) / 8) mod 1024
-           / (1 + seed mod 3)).
+  let s := N.of_nat seed in
+  let k := N.of_nat c in
+  N.odd ((((s * 7919 + k * 104729 + s * k * 31 + k * k * 17) / 8) mod 1024
+          / (1 + s mod 3))%N).
 
+(* callees write the (new) location n0 into the fields they overwrite; an
+   "existing object" returned by a callee is the first parameter's cell *)
 Definition orc_seed (n0 seed : nat) : oracle :=
-  mkorc (fun _ _ => n0) (lcg_bit seed).
+  mkorc (fun _ f => if String.eqb f "" then R + 1 else n0) (lcg_bit seed).
 
 Definition run_fn (fn : func) (seed fuel : nat) : state * status :=
   exec (orc_seed (N0 fn) seed) fuel (f_body fn) (st0 fn).
